@@ -277,12 +277,14 @@ func lemmaTickMonotone(intervalStart uint64, intervalsPerDay uint32, t1, t2 uint
 // ---------------------------------------------------------------------------------------------
 // C16 (writer side): the auto-create path of WriteCSM hands AddTimeBucket a path derived from the same key
 
+// C14: a request that is rejected changes no bucket named in it: nothing of it may have been queued for writing.
 //@ func (*Writer).WriteCSM
 //@ props C16
 //@ option noimplicit
+//@ exit #rejectIsAtomic [C14]: result != nil ==> queuedCmds == old(queuedCmds)
 //@ assumepre catalog.Directory.AddTimeBucket.schema "observation outside C16: item/category count mismatch is not checked"
 //@ assumepre executor.Writer.WriteRecords.tbi "the bucket description comes from the catalog (loaded, and its path names its year file)"
-//@ loop 0 invariant true
+//@ loop 0 invariant #queued: queuedCmds >= old(queuedCmds)
 //@ loop 1 invariant true
 
 // ---------------------------------------------------------------------------------------------
@@ -376,7 +378,7 @@ func lemmaTickMonotone(intervalStart uint64, intervalsPerDay uint32, t1, t2 uint
 //@ props C35 C04 C07
 //@ option noimplicit
 //@ option abstract channel
-//@ loop 0 invariant true
+//@ loop 0 invariant #monotone: clock >= old(clock)
 //@ exit #shutdownOrder: old(clock) < flushAt && flushAt < ckptAt && ckptAt < doneAt
 
 // C07: a writer returns from RequestFlush only after a flush that started after the call has completed: either it ran
@@ -433,9 +435,13 @@ func lemmaTickMonotone(intervalStart uint64, intervalsPerDay uint32, t1, t2 uint
 //@ ensures #fields: result != nil && result.Index == index && result.Offset == offset && result.RecordType == rt && result.VarRecLen == varRecLen
 //@ marks #slot: cmdIndex(result) == index && cmdYear(result) == pathYear(tbiAbsPath)
 
+// queuedCmds: number of write commands handed to the WAL goroutine so far (they are written by the next flush)
+//@ ghost var queuedCmds int
+
 //@ func (*WALFileType).QueueWriteCommand
 //@ trusted "hands the command to the WAL goroutine (channel send)"
-//@ modifies none
+//@ modifies ghost:queuedCmds
+//@ ensures #queued: queuedCmds == old(queuedCmds) + 1
 
 // A variable-length record in a write command is the row without its 8-byte epoch followed by the 4-byte interval
 // ticks; a fixed-length record is the row without its epoch (the slot index carries the time).
@@ -474,7 +480,9 @@ func lemmaTickMonotone(intervalStart uint64, intervalsPerDay uint32, t1, t2 uint
 //@ requires #tbi: tbi != nil && tbi.IsRead && pathYear(tbi.Path) == tbi.Year
 //@ loop 0 invariant #idx: 0 <= i
 //@ loop 0 invariant #tbi: tbi != nil && tbi.IsRead && pathYear(tbi.Path) == tbi.Year
+//@ loop 0 invariant #queued: queuedCmds >= old(queuedCmds)
 //@ loop 0 invariant #openCommand: i >= 1 ==> (cc != nil && cmdIndex(cc) == prevIndex && cmdYear(cc) == prevYear)
+//@ ensures #queued: queuedCmds >= old(queuedCmds)
 //@ loop 0 step #joinsOwnSlot: (i >= 2 && cc == prev(cc)) ==> (index == cmdIndex(cc) && year == cmdYear(cc))
 
 // C09: the second stage of a variable-length read copies every interval's rewritten records into the result buffer.
